@@ -47,11 +47,12 @@ HAND = {
             return fis_
         src = inspect.getsource(f)
         # _logger.debug(f"Starting _introspect: {f}: src={src}")''', ["C01"]),
-    "sync-only-root-path": ("dds/_api.py", '''            _store().sync_paths(store_paths)''', '''            _store().sync_paths(
-                OrderedDict([(p, k) for (p, k) in store_paths.items() if k == current_sig])
-                if path is not None
-                else store_paths
-            )''', ["C04"]),
+    "sync-only-root-path": ("dds/_api.py", '''                    [(p, k) for (p, k) in store_paths.items() if _store().has_blob(k)]''', '''                    [
+                        (p, k)
+                        for (p, k) in store_paths.items()
+                        if _store().has_blob(k) and (path is None or k == current_sig)
+                    ]''', ["C04"]),
+    "commit-unreached-keeps": ("dds/_api.py", '''                    [(p, k) for (p, k) in store_paths.items() if _store().has_blob(k)]''', '''                    [(p, k) for (p, k) in store_paths.items()]''', ["C04"]),
     "store-blob-in-finally": ("dds/_api.py", '''        t = _time()
         res = fun(*args, **kwargs)
         _add_delta(t, ProcessingStage.STORE_COMMIT)
